@@ -53,6 +53,21 @@ func child(c *vf.Ctx) {
 		seed, _ := strconv.ParseInt(c.ChildArgs[0], 10, 64)
 		daemon.VerifYield = gateHook
 		runScenario(c, seed, -1)
+	case "life":
+		lo, _ := strconv.Atoi(c.ChildArgs[0])
+		hi, _ := strconv.Atoi(c.ChildArgs[1])
+		seeds := lifeSeeds(c, hi)
+		for i := lo; i < hi; i++ {
+			c.Mark(strconv.Itoa(i))
+			if !runLife(c, seeds[i], i) {
+				c.Emit("resume", i+1)
+				return
+			}
+		}
+		c.Emit("resume", hi)
+	case "lifeone":
+		seed, _ := strconv.ParseInt(c.ChildArgs[0], 10, 64)
+		runLife(c, seed, -1)
 	case "stress":
 		batch, _ := strconv.Atoi(c.ChildArgs[0])
 		from, _ := strconv.Atoi(c.ChildArgs[1])
@@ -67,9 +82,12 @@ func child(c *vf.Ctx) {
 
 // detRange runs configurations [lo,hi) in det children, restarting after a
 // scenario that left goroutines behind or killed the process.
-func detRange(c *vf.Ctx, lo, hi int) {
+func detRange(c *vf.Ctx, lo, hi int) { famRange(c, "det", lo, hi) }
+
+// famRange: the same for the scripted family fam ("det": scenario.go, "life": lifecycle.go).
+func famRange(c *vf.Ctx, fam string, lo, hi int) {
 	for lo < hi {
-		res := c.RunChild(vf.ChildOpts{Name: "det", Args: []string{strconv.Itoa(lo), strconv.Itoa(hi)}, Timeout: 10 * time.Minute, Env: []string{"GOMAXPROCS=4"}})
+		res := c.RunChild(vf.ChildOpts{Name: fam, Args: []string{strconv.Itoa(lo), strconv.Itoa(hi)}, Timeout: 10 * time.Minute, Env: []string{"GOMAXPROCS=4"}})
 		next := -1
 		for _, r := range res.Records {
 			if r.Kind == "resume" {
@@ -83,13 +101,16 @@ func detRange(c *vf.Ctx, lo, hi int) {
 		// the child died or timed out
 		at, _ := strconv.Atoi(res.LastMark)
 		seed := cfgSeeds(c, at+1)[at]
+		if fam == "life" {
+			seed = lifeSeeds(c, at+1)[at]
+		}
 		switch {
 		case res.TimedOut:
-			c.Inconclusive(fmt.Sprintf("det child timed out in configuration %d (seed %d), dump in %s", at, seed, res.StderrPath))
+			c.Inconclusive(fmt.Sprintf("%s child timed out in configuration %d (seed %d), dump in %s", fam, at, seed, res.StderrPath))
 		case res.Deadlock:
-			c.Violation("hang:runtime-deadlock", "Go runtime reported a global dead-lock in a scripted scenario", replayRec{Mode: "det", CfgSeed: seed, Index: at, Dump: trunc(res.Stderr, 6000)})
+			c.Violation("hang:runtime-deadlock", "Go runtime reported a global dead-lock in a scripted scenario ("+fam+")", replayRec{Mode: fam, CfgSeed: seed, Index: at, Dump: trunc(res.Stderr, 6000)})
 		default:
-			c.Violation("fatal:"+fatalClass(res.Fatal), fmt.Sprintf("det child died in configuration %d: %s", at, res.Fatal), replayRec{Mode: "det", CfgSeed: seed, Index: at, Dump: trunc(res.Stderr, 6000)})
+			c.Violation("fatal:"+fatalClass(res.Fatal), fmt.Sprintf("%s child died in configuration %d: %s", fam, at, res.Fatal), replayRec{Mode: fam, CfgSeed: seed, Index: at, Dump: trunc(res.Stderr, 6000)})
 		}
 		lo = at + 1
 	}
@@ -258,12 +279,19 @@ func run(c *vf.Ctx) {
 			} else if res.ExitCode != 0 {
 				c.Violation("fatal:"+fatalClass(res.Fatal), "replay child died: "+res.Fatal, r)
 			}
+		case "life":
+			res := c.RunChild(vf.ChildOpts{Name: "lifeone", Args: []string{strconv.FormatInt(r.CfgSeed, 10)}, Timeout: 2 * time.Minute, Env: []string{"GOMAXPROCS=4"}})
+			if res.TimedOut {
+				c.Inconclusive("replay timed out")
+			} else if res.ExitCode != 0 {
+				c.Violation("fatal:"+fatalClass(res.Fatal), "replay child died: "+res.Fatal, r)
+			}
 		case "stress":
 			stressBatch(c, r.Batch, r.From, r.Iters, r.Race)
 		}
 		return
 	}
-	c.SetRule("one evaluation = one oracle decision on the real daemon: (a) at every quiescent point of a scripted scenario (all goroutines parked, shutdown goroutine in WaitGroup.Wait or gone) each live worker's ctx.Err() is compared with 'every worker of strictly higher order has returned' (both directions), ShutdownAndWait/Run callers that returned are checked against unreturned workers, registrations of running names / after shutdown must be refused, a BackgroundWorker call gated at daemon.bgworker.afterStoppedCheck while shutdown runs must be refused or its worker cancelled and waited for; (b) per BackgroundWorker call of the free-running stress (plain and -race; every sixth iteration is the 'shutdown requested by the k-th started worker while Start launches 3/50/2000 workers' workload, every third iteration is the 'worker exit vs re-registration' workload: callers spin on BackgroundWorker(sameName) while the old handler returns, 2-5 names, up to 3 generations, optional Run, shutdown after or during): accepted workers returned before ShutdownAndWait did (logical clock), cancelled workers see no cancelled unreturned lower-order worker. Bursts of the read-only / no-op-looking API (GetRunningBackgroundWorkers, IsRunning, IsStopped, ContextStopped, DebugLogger(nil), a second Start, the default-daemon getters; 0-3 calls each) are interleaved before Start, while running, right before and during shutdown and afterwards, and their results are compared with the model at quiescent points. Configurations come from a per-index seed (orders from a pool with ties, negatives, gaps, int32 and platform-int boundary values, a third of the pools with a pair more than math.MaxInt apart; early finishers; re-registration; 1-4 shutdown callers; Run). distinct_nontrivial counts distinct (order multiset at shutdown, gate-release order, variant set) triples of started daemons with >= 2 distinct orders and >= 1 gate release")
+	c.SetRule("one evaluation = one oracle decision on the real daemon: (a) at every quiescent point of a scripted scenario (all goroutines parked, shutdown goroutine in WaitGroup.Wait or gone) each live worker's ctx.Err() is compared with 'every worker of strictly higher order has returned' (both directions), ShutdownAndWait/Run callers that returned are checked against unreturned workers, registrations of running names / after shutdown must be refused, a BackgroundWorker call gated at daemon.bgworker.afterStoppedCheck while shutdown runs must be refused or its worker cancelled and waited for; (b) per BackgroundWorker call of the free-running stress (plain and -race; every sixth iteration is the 'shutdown requested by the k-th started worker while Start launches 3/50/2000 workers' workload, every third iteration is the 'worker exit vs re-registration' workload: callers spin on BackgroundWorker(sameName) while the old handler returns, 2-5 names, up to 3 generations, optional Run, shutdown after or during): accepted workers returned before ShutdownAndWait did (logical clock), cancelled workers see no cancelled unreturned lower-order worker. Bursts of the read-only / no-op-looking API (GetRunningBackgroundWorkers, IsRunning, IsStopped, ContextStopped, DebugLogger(nil), a second Start, the default-daemon getters; 0-3 calls each) are interleaved before Start, while running, right before and during shutdown and afterwards, and their results are compared with the model at quiescent points. Configurations come from a per-index seed (orders from a pool with ties, negatives, gaps, int32 and platform-int boundary values, a third of the pools with a pair more than math.MaxInt apart; early finishers; re-registration; 1-4 shutdown callers; Run). (c) life-cycle entry-point combinations (lifecycle.go, scripted, one gate at a time): the daemon is started with Start() or Run(), the shutdown is requested by Shutdown() or ShutdownAndWait() from another goroutine, and further Run/ShutdownAndWait/Shutdown/Start calls arrive from fresh goroutines while running, in the same step as the shutdown request, at seeded steps of the winding down (at least one per configuration; parked before, or overlapping, the next worker's return), after the stop, and on a daemon stopped before it was started; every Run/ShutdownAndWait call found returned at a quiescent point while a worker that was inside its handler at the previous quiescent point is still inside it is a violation, as is a call blocked for ever once nothing runs, a worker started or a registration accepted on a stopped daemon; the ordering invariant of (a) runs at every one of these points. distinct_nontrivial counts distinct (order multiset at shutdown, gate-release order, variant set) triples of started daemons with >= 2 distinct orders and >= 1 gate release")
 	nCfg := c.Pick(1200, 20000)
 	procs := runtime.NumCPU() / 2
 	if procs < 2 {
@@ -282,6 +310,18 @@ func run(c *vf.Ctx) {
 		}
 		wg.Add(1)
 		go func() { defer wg.Done(); detRange(c, lo, hi) }()
+	}
+	// life-cycle entry-point combinations (lifecycle.go), scripted as well
+	nLife := c.Pick(600, 8000)
+	lifeProcs := max(procs/2, 2)
+	perLife := (nLife + lifeProcs - 1) / lifeProcs
+	for p := 0; p < lifeProcs; p++ {
+		lo, hi := p*perLife, min((p+1)*perLife, nLife)
+		if lo >= hi {
+			continue
+		}
+		wg.Add(1)
+		go func() { defer wg.Done(); famRange(c, "life", lo, hi) }()
 	}
 	wg.Wait()
 	// free-running stress, plain and -race
@@ -341,6 +381,16 @@ func run(c *vf.Ctx) {
 	c.Require("rereg_accepted", 10000)
 	c.Require("rereg_attempts_while_old_worker_exiting", scaled(50, 5)) // refusals observed after the old handler had returned: the call raced the exit path
 	c.Require("rereg_accepted_early", scaled(8, 1))                     // ... and the retry was then accepted
+	c.Require("life_configurations", nLife)
+	c.Require("life_returns_judged", nLife*3)                                // Run/ShutdownAndWait calls whose return was judged against the held workers
+	c.Require("life_blocked_seen_winding-down_run", nLife/3)                 // Run() arriving during the winding down was seen parked inside Run while a started worker was held by a gate
+	c.Require("life_blocked_seen_winding-down_shutdownandwait", nLife/5)     // ... a second ShutdownAndWait likewise
+	c.Require("life_blocked_seen_running_run", nLife/5)                      // ... a Run() arriving on a daemon that was already running
+	c.Require("life_blocked_seen_shutdown-request_run", nLife/5)             // ... a Run() arriving in the same step as the shutdown request
+	c.Require("life_blocked_seen_shutdown-request_shutdownandwait", nLife/5) // the requesting ShutdownAndWait itself
+	c.Require("life_calls_after-stop_run", nLife/2)
+	c.Require("life_calls_stopped-unstarted_run", nLife/20)
+	c.Require("life_shapes", nLife/4)
 	c.Assume("runtime.Stack(all) snapshots are consistent (stop-the-world); a process in which every goroutine is parked on a channel/sync primitive and no timer exists cannot make progress by itself (the daemon uses no timers and no logger unless DebugLogger is called)")
 	c.Assume("sync/atomic operations are sequentially consistent (logical clock, returned flags)")
 }
